@@ -1,10 +1,10 @@
 #!/bin/bash
-# sweep.sh [tier] [seeds...]  - run every check registered in MANIFEST.json on /repo at the given
+# sweep.sh [tier] [seeds...]  (SWEEP_IDS="C01 C02" restricts the checks) - run every check registered in MANIFEST.json on /repo at the given
 # seeds and validate the evidence files.  Prints one line per (check, seed); exit 1 if anything fired.
 cd "$(dirname "$0")/.." || exit 2
 TIER="${1:-quick}"; shift
 SEEDS="${*:-1}"
-IDS=$(python3 -c "import json;print(' '.join(c['property_id'] for c in json.load(open('MANIFEST.json'))['checks']))")
+IDS="${SWEEP_IDS:-}"; [ -n "$IDS" ] || IDS=$(python3 -c "import json;print(' '.join(c['property_id'] for c in json.load(open('MANIFEST.json'))['checks']))")
 rc=0
 for s in $SEEDS; do
   for id in $IDS; do
